@@ -324,8 +324,9 @@ def shard(spec, depth, T, only_cfg=None):
                     continue
                 for h in hist:
                     try:
-                        if getattr(spec, "fresh_per_history", False):
-                            fresh = spec.make(dict(cfg))
+                        # the reference is constructed anew for every history: the setter-built component is re-used (cleared by
+                        # `behaviour`) across histories, so whatever a clear leaves behind shows against a component that never ran
+                        fresh = spec.make(dict(cfg))
                         oa = spec.behaviour(comp, h, cfg)
                         ob = spec.behaviour(fresh, h, cfg)
                     except Exception as ex:
